@@ -65,6 +65,72 @@ fn parse_print(kind: &str, text: &str) -> Result<Option<String>, String> {
     }
 }
 
+// ---- C16 on the deriving structs SHIPPED in the workspace: both paragraph back-ends, and update of an existing
+// lossless paragraph (foreign fields and comments stay, absent optional fields go)
+type LLP = deb822_lossless::lossless::Paragraph;
+// (the two back-ends differ in how they report an empty first value line; values are compared by their non-blank lines, as in C06)
+fn nb(v: &str) -> String { v.split('\n').filter(|l| !l.trim().is_empty()).collect::<Vec<_>>().join("\n") }
+// Buildinfo's Environment is a HashMap printed in iteration order: two prints of one value may order its lines
+// differently (no listed property pins that order; Buildinfo has no document printer) - compared as a set of lines
+fn canon(k: &str, v: &str) -> String { let v = nb(v); if k == "Environment" { let mut l: Vec<&str> = v.split('\n').collect(); l.sort(); l.join("\n") } else { v } }
+fn items_ll(p: &LLP) -> Vec<(String, String)> { p.items().map(|(k, v)| { let c = canon(&k, &v); (k, c) }).collect() }
+fn items_lp(p: &LP) -> Vec<(String, String)> { p.iter().map(|(k, v)| (k.to_string(), canon(k, v))).collect() }
+fn shipped<T>(o: &mut Outcome, role: &str, text: &str, full_text: &str, feats: &[String])
+where T: FromDeb822Paragraph<LP> + FromDeb822Paragraph<LLP> + ToDeb822Paragraph<LP> + ToDeb822Paragraph<LLP> {
+    let api = format!("derive on {} (shipped struct)", role);
+    let (lp, llp) = match (LP::from_str(text), LLP::from_str(text)) { (Ok(a), Ok(b)) => (a, b), _ => return };
+    o.evals += 1;
+    let r = guarded(&api, || {
+        let a = <T as FromDeb822Paragraph<LP>>::from_paragraph(&lp);
+        let b = <T as FromDeb822Paragraph<LLP>>::from_paragraph(&llp);
+        let (a, b) = match (a, b) {
+            (Ok(a), Ok(b)) => (a, b),
+            (Err(x), Err(y)) => return if x == y { Ok(()) } else { Err(("backends_agree", format!("lossy back-end error {:?}, lossless back-end error {:?}", x, y))) },
+            (x, y) => return Err(("backends_agree", format!("lossy back-end accepted: {}, lossless back-end accepted: {}", x.is_ok(), y.is_ok()))),
+        };
+        let pa = items_lp(&<T as ToDeb822Paragraph<LP>>::to_paragraph(&a));
+        let pb = items_ll(&<T as ToDeb822Paragraph<LLP>>::to_paragraph(&b));
+        if pa != pb { return Err(("backends_agree", format!("to_paragraph lossy {:?} lossless {:?}", pa, pb))); }
+        // update a lossless paragraph that has every field (old values), foreign fields and comments
+        let prior_text = format!("X-Foreign: keep\n# a comment that stays\n{}X-Last:   z\n", full_text);
+        let mut prior = match LLP::from_str(&prior_text) { Ok(p) => p, Err(_) => return Ok(()) };
+        <T as ToDeb822Paragraph<LLP>>::update_paragraph(&a, &mut prior);
+        let after = prior.to_string();
+        let own: Vec<(String, String)> = items_ll(&prior).into_iter().filter(|(k, _)| k != "X-Foreign" && k != "X-Last").collect();
+        let mut want = pa.clone(); let mut got = own.clone(); want.sort(); got.sort();
+        if want != got { return Err(("update", format!("after update_paragraph the own fields are {:?}, the value has {:?} (paragraph {:?})", own, pa, after))); }
+        for keep in ["X-Foreign: keep\n", "# a comment that stays\n", "X-Last:   z\n"] { if !after.contains(keep) { return Err(("foreign_untouched", format!("{:?} is gone or changed: {:?}", keep, after))); } }
+        match <T as FromDeb822Paragraph<LLP>>::from_paragraph(&prior) {
+            Ok(c) => { let pc = items_lp(&<T as ToDeb822Paragraph<LP>>::to_paragraph(&c)); if pc != pa { return Err(("update_reads_back", format!("updated paragraph reads as {:?}, expected {:?}", pc, pa))); } }
+            Err(e) => return Err(("update_reads_back", format!("updated paragraph rejected: {}", e))),
+        }
+        Ok(())
+    });
+    match r {
+        Ok(Ok(())) => {}
+        Ok(Err((pred, detail))) => o.v("C16", pred, &api, "mismatch", feats, text, detail),
+        Err(m) => o.v("C16", "total", &api, "panic", feats, text, m),
+    }
+}
+fn shipped_by_role(o: &mut Outcome, role: &str, text: &str, full: &str, feats: &[String]) {
+    use debian_control::lossy as dl;
+    match role {
+        "control_source" => shipped::<dl::Source>(o, role, text, full, feats),
+        "control_binary" => shipped::<dl::Binary>(o, role, text, full, feats),
+        "release" => shipped::<dl::apt::Release>(o, role, text, full, feats),
+        "apt_source" => shipped::<dl::apt::Source>(o, role, text, full, feats),
+        "apt_package" => shipped::<dl::apt::Package>(o, role, text, full, feats),
+        "buildinfo" => shipped::<dl::buildinfo::Buildinfo>(o, role, text, full, feats),
+        "removal" => shipped::<dl::ftpmaster::Removal>(o, role, text, full, feats),
+        "copyright_header" => shipped::<debian_copyright::lossy::Header>(o, role, text, full, feats),
+        "copyright_files" => shipped::<debian_copyright::lossy::FilesParagraph>(o, role, text, full, feats),
+        "copyright_license" => shipped::<debian_copyright::lossy::LicenseParagraph>(o, role, text, full, feats),
+        "dep3" => shipped::<dep3::lossy::PatchHeader>(o, role, text, full, feats),
+        "repository" => shipped::<apt_sources::Repository>(o, role, text, full, feats),
+        _ => {}
+    }
+}
+
 pub fn features(case: &Value) -> Vec<String> {
     let mut f = vec![format!("kind:{}", case["kind"].as_str().unwrap_or(""))];
     if case["comments"].as_bool() == Some(true) { f.push("comments".into()); }
@@ -84,6 +150,17 @@ pub fn run(case: &Value, _seed: u64) -> Outcome {
     let feats = features(case);
     let text = render(case);
     let want_ok = case["ok"].as_bool().unwrap_or(false);
+    // C16: every paragraph of the document through the derived conversions of its struct, on both back-ends
+    let vs = case["vs"].as_u64().unwrap_or(1) as usize;
+    for p in case["paras"].as_array().unwrap_or(&vec![]) {
+        let role = p["role"].as_str().unwrap_or("");
+        if role == "neither" { continue; }
+        let present: Vec<usize> = p["present"].as_array().map(|a| a.iter().map(|x| x.as_u64().unwrap() as usize).collect()).unwrap_or_default();
+        let all: Vec<usize> = (1..=table(role).len()).collect();
+        let ptext = render_para(role, &present, false, vs);
+        let full = render_para(role, &all, false, 1);
+        shipped_by_role(&mut o, role, &ptext, &full, &feats);
+    }
     o.evals += 1;
     let api = format!("lossy {}::from_str", kind);
     let r = match guarded(&api, || parse_print(kind, &text)) { Ok(r) => r, Err(m) => { o.v("C20", "total", &api, "panic", &feats, &text, m.clone()); o.v("C02", "total", &api, "panic", &feats, &text, m); return o; } };
